@@ -207,4 +207,13 @@ def build_finite(tier, seed):
                 if ty == "f32" and n32 < 8 and not with_san:
                     d.tags.append("sweep32")
                     n32 += 1
+        # invalid (non-finite) defaults: Default::default() must panic rather than hand out NaN / inf
+        import math
+        for (txt, den) in ((f"{ty}::NAN", float_denote(ty, math.nan) if False else None), (f"{ty}::INFINITY", float_denote(ty, math.inf)), (f"-{ty}::INFINITY", float_denote(ty, -math.inf))):
+            d = b.new(inner_float(ty), tags=list(tags))
+            d.vals.append(Vld("finite"))
+            d.derives = list(der) + ["Default"]
+            if den is None:
+                den = ("f32", 0x7FC00000) if ty == "f32" else ("f64", 0x7FF8000000000000)
+            d.default = (txt, den)
     return b.decls
